@@ -2,6 +2,7 @@ package interp
 
 import (
 	"fmt"
+	"unsafe"
 	"math"
 	"strconv"
 	"go/types"
@@ -25,7 +26,7 @@ type Program struct {
 }
 
 type funcInfo struct {
-	idx   map[ssa.Value]int
+	idx   map[unsafe.Pointer]int32
 	nregs int
 	name  string
 	short string // name without package path for limit matching, e.g. "fsm.apply"
@@ -35,25 +36,25 @@ func (p *Program) info(fn *ssa.Function) *funcInfo {
 	if fi, ok := p.finfo.Load(fn); ok {
 		return fi.(*funcInfo)
 	}
-	fi := &funcInfo{idx: map[ssa.Value]int{}}
-	n := 0
+	fi := &funcInfo{idx: map[unsafe.Pointer]int32{}}
+	n := int32(0)
 	for _, v := range fn.Params {
-		fi.idx[v] = n
+		fi.idx[vptr(v)] = n
 		n++
 	}
 	for _, v := range fn.FreeVars {
-		fi.idx[v] = n
+		fi.idx[vptr(v)] = n
 		n++
 	}
 	for _, b := range fn.Blocks {
 		for _, in := range b.Instrs {
 			if v, ok := in.(ssa.Value); ok {
-				fi.idx[v] = n
+				fi.idx[vptr(v)] = n
 				n++
 			}
 		}
 	}
-	fi.nregs = n
+	fi.nregs = int(n)
 	fi.name = fn.String()
 	fi.short = shortName(fn)
 	p.finfo.Store(fn, fi)
@@ -147,6 +148,7 @@ type Stats struct {
 	RuntimeVCs     int64
 	DecidedNoSolve int64
 	UFFacts        int64
+	Choices        int64
 	UFRefuted      int64
 	UnsupportedWhy map[string]int64
 	Funcs          map[string]bool
@@ -174,6 +176,7 @@ func (s *Stats) Merge(o *Stats) {
 	s.RuntimeVCs += o.RuntimeVCs
 	s.DecidedNoSolve += o.DecidedNoSolve
 	s.UFFacts += o.UFFacts
+	s.Choices += o.Choices
 	s.UFRefuted += o.UFRefuted
 	for k, v := range o.UnsupportedWhy {
 		s.UnsupportedWhy[k] += v
@@ -390,6 +393,7 @@ func (m *Machine) Choose(n int) int {
 	if n <= 1 {
 		return 0
 	}
+	m.Stats.Choices++
 	if m.tpos < len(m.trail) {
 		e := &m.trail[m.tpos]
 		m.tpos++
@@ -1072,4 +1076,10 @@ func (m *Machine) TrailVals() []int64 {
 		out[i] = e.val
 	}
 	return out
+}
+
+// vptr is the data pointer of an ssa.Value (register tables are keyed by it: pointer
+// hashing is much cheaper than interface hashing).
+func vptr(v ssa.Value) unsafe.Pointer {
+	return (*[2]unsafe.Pointer)(unsafe.Pointer(&v))[1]
 }
